@@ -1092,3 +1092,28 @@ Example sample_history_ok :
   live s 1 = true /\ kind_of s 1 = Some KManaged /\ info s 6 = Some (KManaged, false) /\
   live s 3 = true /\ kind_of s 3 = Some KRoot /\ fin_count s 7 = 1 /\ fin_count s 8 = 1.
 Proof. vm_compute. repeat split; reflexivity. Qed.
+
+(* ------------------------------------------------------------------ the same, for switches equal to true
+   (Properties_C06.v instantiates them with the values read off the C text; stated this way a
+   reverted repair fails at once on `false = true` instead of sending the kernel into a long
+   conversion) *)
+Lemma finalised_at_most_once_sw r w : r = true -> w = true -> forall h x,
+  fin_count (run r w h) x <= 1 /\ free_count (run r w h) x = fin_count (run r w h) x.
+Proof. intros -> ->. exact finalised_at_most_once. Qed.
+
+Lemma fuel_adequate_sw r w : r = true -> w = true -> forall h,
+  oof (run r w h) = false /\ pend (run r w h) = [].
+Proof. intros -> ->. exact fuel_adequate. Qed.
+
+Lemma explicit_delete_finalises_sw r w : r = true -> w = true -> forall h k o,
+  no_alloc_in_stop_window r w h = true ->
+  torn (run r w h) = false -> live (run r w h) o = true -> kind_of (run r w h) o = Some k ->
+  (k = KRaw \/ running (run r w h) = true) ->
+  fin_count (run r w (h ++ [EDel k o])) o = 1 /\ free_count (run r w (h ++ [EDel k o])) o = 1.
+Proof. intros -> ->. exact explicit_delete_finalises. Qed.
+
+Lemma teardown_complete_sw r w : r = true -> w = true -> forall h order x b,
+  no_alloc_in_stop_window r w h = true ->
+  torn (run r w h) = false -> info (run r w h) x = Some (KManaged, b) ->
+  fin_count (run r w (h ++ [ETeardown order])) x = 1 /\ free_count (run r w (h ++ [ETeardown order])) x = 1.
+Proof. intros -> ->. exact teardown_complete. Qed.
